@@ -101,7 +101,7 @@ Proof.
   rewrite Ed. cbn [bind]. eexists. split; [reflexivity|].
   unfold dec_info_string. rewrite Rd. cbn [Z.eqb Pos.eqb].
   assert (Z.of_nat (length s) =? 0 = false) as E0 by (destruct s; [contradiction|cbn [length]; lia]).
-  rewrite E0. rewrite Nat2Z.id. rewrite <- (app_nil_r s) at 2.
+  rewrite E0. rewrite znat_id by lia. rewrite <- (app_nil_r s) at 2.
   rewrite take_app by reflexivity. rewrite Hu. reflexivity.
 Qed.
 
@@ -268,7 +268,11 @@ Proof.
   intros m ss H Hm.
   destruct (descriptor_roundtrip 7 (Z.of_nat m) (flat_map (cell m) ss)) as [d [Ed Rd]]; [reflexivity|lia|].
   exists d. split; [exact Ed|]. unfold dec_fmt_cells. rewrite Rd.
-  cbn [Z.eqb Pos.eqb negb]. rewrite andb_false_r. rewrite Nat2Z.id.
+  cbn [Z.eqb Pos.eqb negb]. rewrite andb_false_r.
+  destruct ss as [|s0 ss']; [reflexivity|].
+  rewrite znat_id.
+  2:{ rewrite (flat_map_len_const (cell m) m) by (intros s Hs; apply cell_length; apply (H s Hs)).
+      cbn [length]. nia. }
   rewrite <- (app_nil_r (flat_map _ _)). rewrite dec_cells_roundtrip by exact H. reflexivity.
 Qed.
 
